@@ -782,8 +782,9 @@ def run(ck: Check):
                       "to preserve the outcome of the blocks on which every change it makes passes a decidable check (SafeBlock: pure "
                       "definition without / and %, nothing it reads assigned before the use, deleted definitions dead) and refuted on the "
                       "witness of propagation-past-redefinition; SafeBlock is checked by running the model on the block, not derived from "
-                      "a condition on the input; propagation of divisions and invokes, propagation across branches and loops, dead-code "
-                      "elimination, variable splitting and typing, "
+                      "a condition on the input; dead-code elimination likewise (one block, model tied by correspondence, sound when every "
+                      "deletion passes a decidable check, refuted on a dead division); propagation and deletion of divisions and invokes, "
+                      "both passes across branches and loops, variable splitting and typing, "
                       "loop/if/switch structuring and the statement writer are covered by differential execution only")
     ck.rule = ("instruction samples: every opcode of the subset x literals (boundaries + random) x register contents (boundaries + "
                "random); methods: random well-typed static methods at three levels (straight-line / one level of control flow / nested "
@@ -804,7 +805,8 @@ def run(ck: Check):
         "side is never a bare register); for `w op w` (one shared operand object) BinaryExpression.replace visits the object twice, "
         "the model once - the same unless the replaced register occurs in its own replacement, which cannot happen when every register "
         "is assigned once (the stream emits the shape only there; elsewhere the real pass can build a cyclic expression and die of "
-        "RecursionError); the semantics of the block IR (Propagate.run: left-to-right evaluation, an exception ends the block, the world "
+        "RecursionError); in the model of dead_code_elimination graph.remove_ins(loc) is moved in front of update_chain(loc) (which "
+        "reads nothing of the instruction but its used registers): same final list, checked by the stream; the semantics of the block IR (Propagate.run: left-to-right evaluation, an exception ends the block, the world "
         "is the sequence of calls) is part of the specification"]
     ck.notes.append("print_parse is proved for every well-formed IR expression tree (JExpr.WF: each operand printed at least as tightly "
                     "as its position needs); trees outside WF (a bare comparison as an operand, `a cmp b` of float compares) are "
